@@ -11,6 +11,7 @@ use serde_json::json;
 use std::alloc::{GlobalAlloc, Layout, System};
 use std::io::Cursor;
 use std::sync::atomic::{AtomicUsize, Ordering};
+use std::sync::Arc;
 use vp_engine::batch::*;
 use vp_engine::model::*;
 use vp_engine::r#gen::*;
@@ -577,6 +578,123 @@ fn read_all(fmt: Fmt, data: &[u8], schema: &Option<SchemaRef>, meta: &[u8]) -> R
     Ok(o)
 }
 
+/// A Parquet file written with the low-level column writer (which does not look at the bytes): a BYTE_ARRAY column
+/// annotated UTF8 whose values split one code point between two neighbouring values ("\xC3" | "\xA9..."), under each of
+/// the byte-array encodings.  The concatenation of the values is valid UTF-8, every single value is not: the Arrow reader
+/// must return an error or valid arrays.
+fn sub_parquet_split_code_point(c: &mut Case) -> CaseResult {
+    use parquet::basic::{ConvertedType, Encoding, Repetition, Type as PhysicalType};
+    use parquet::data_type::{ByteArray, ByteArrayType};
+    use parquet::file::properties::WriterProperties;
+    use parquet::file::writer::SerializedFileWriter;
+    use parquet::schema::types::Type;
+    let encs = [Encoding::PLAIN, Encoding::DELTA_LENGTH_BYTE_ARRAY, Encoding::DELTA_BYTE_ARRAY];
+    let enc = encs[(c.index as usize) % 3];
+    let dict = (c.index / 3) % 2 == 1;
+    c.describe(json!({"encoding": format!("{:?}", enc), "dictionary": dict, "values": "[\"a\\xC3\", \"\\xA9b\", \"\\xC3\", \"\\xA9\"]"}));
+    c.class(format!("encoding:{:?}", enc));
+    let schema = Arc::new(
+        Type::group_type_builder("schema")
+            .with_fields(vec![Arc::new(
+                Type::primitive_type_builder("s", PhysicalType::BYTE_ARRAY).with_repetition(Repetition::REQUIRED).with_converted_type(ConvertedType::UTF8).build().unwrap(),
+            )])
+            .build()
+            .unwrap(),
+    );
+    let props = Arc::new(WriterProperties::builder().set_dictionary_enabled(dict).set_encoding(enc).build());
+    let mut out: Vec<u8> = vec![];
+    let wrote = catch(|| -> Result<(), String> {
+        let mut w = SerializedFileWriter::new(&mut out, schema, props).map_err(|e| e.to_string())?;
+        let mut rg = w.next_row_group().map_err(|e| e.to_string())?;
+        let mut col = rg.next_column().map_err(|e| e.to_string())?.ok_or("no column")?;
+        let vals: Vec<ByteArray> = vec![ByteArray::from(vec![b'a', 0xC3]), ByteArray::from(vec![0xA9, b'b']), ByteArray::from(vec![0xC3]), ByteArray::from(vec![0xA9])];
+        col.typed::<ByteArrayType>().write_batch(&vals, None, None).map_err(|e| e.to_string())?;
+        col.close().map_err(|e| e.to_string())?;
+        rg.close().map_err(|e| e.to_string())?;
+        w.close().map_err(|e| e.to_string())?;
+        Ok(())
+    });
+    if !matches!(wrote, Ok(Ok(()))) {
+        c.class("writer-rejected");
+        return Ok(());
+    }
+    let o = match catch(|| read_all(Fmt::Parquet, &out, &None, &[])) {
+        Ok(r) => r.map_err(|f| Fail::new(format!("split-code-point:{}", f.sig.split(':').nth(1).unwrap_or("invalid")), f.msg))?,
+        Err(p) => return Err(Fail::new("split-code-point:panic", format!("Parquet reader panicked at {}: {}", p.loc, p.msg))),
+    };
+    c.class(if o.err.is_some() { "rejected" } else { "accepted-valid" });
+    c.eval();
+    // the same file read as Utf8View (supplied schema)
+    let view = catch(|| -> Result<Outcome, Fail> {
+        use parquet::arrow::arrow_reader::{ArrowReaderOptions, ParquetRecordBatchReaderBuilder};
+        let mut o = Outcome::default();
+        let schema = Arc::new(arrow_schema::Schema::new(vec![arrow_schema::Field::new("s", arrow_schema::DataType::Utf8View, false)]));
+        match ParquetRecordBatchReaderBuilder::try_new_with_options(Bytes::copy_from_slice(&out), ArrowReaderOptions::new().with_schema(schema)) {
+            Err(e) => o.err = Some(e.to_string()),
+            Ok(b) => match b.build() {
+                Err(e) => o.err = Some(e.to_string()),
+                Ok(r) => {
+                    o.opened = true;
+                    for b in r {
+                        match b {
+                            Ok(b) => {
+                                check_batch(&b, "Parquet(view)")?;
+                                o.batches += 1;
+                            }
+                            Err(e) => {
+                                o.err = Some(e.to_string());
+                                break;
+                            }
+                        }
+                    }
+                }
+            },
+        }
+        Ok(o)
+    });
+    match view {
+        Ok(r) => {
+            r.map_err(|f| Fail::new(format!("split-code-point:view:{}", f.sig.split(':').nth(1).unwrap_or("invalid")), f.msg))?;
+        }
+        Err(p) => return Err(Fail::new("split-code-point:view:panic", format!("Parquet reader (Utf8View) panicked at {}: {}", p.loc, p.msg))),
+    }
+    c.eval();
+    c.nontrivial();
+    Ok(())
+}
+
+/// does the file's embedded Arrow schema declare a string type for a leaf whose Parquet column is not annotated UTF8
+/// (or the other way round)?
+fn parquet_schemas_disagree(data: &[u8]) -> bool {
+    use parquet::arrow::arrow_reader::ArrowReaderMetadata;
+    use parquet::basic::ConvertedType;
+    let Ok(m) = ArrowReaderMetadata::load(&Bytes::copy_from_slice(data), Default::default()) else { return false };
+    fn leaves(dt: &arrow_schema::DataType, out: &mut Vec<arrow_schema::DataType>) {
+        use arrow_schema::DataType::*;
+        match dt {
+            List(f) | LargeList(f) | FixedSizeList(f, _) | ListView(f) | LargeListView(f) | Map(f, _) => leaves(f.data_type(), out),
+            Struct(fs) => fs.iter().for_each(|f| leaves(f.data_type(), out)),
+            Dictionary(_, v) => leaves(v, out),
+            RunEndEncoded(_, v) => leaves(v.data_type(), out),
+            t => out.push(t.clone()),
+        }
+    }
+    let mut ls = vec![];
+    for f in m.schema().fields() {
+        leaves(f.data_type(), &mut ls);
+    }
+    let descr = m.metadata().file_metadata().schema_descr_ptr();
+    if ls.len() != descr.num_columns() {
+        return true;
+    }
+    ls.iter().zip(descr.columns()).any(|(a, c)| {
+        let arrow_string = matches!(a, arrow_schema::DataType::Utf8 | arrow_schema::DataType::LargeUtf8 | arrow_schema::DataType::Utf8View);
+        let parquet_string = c.converted_type() == ConvertedType::UTF8;
+        let byte_array = matches!(c.physical_type(), parquet::basic::Type::BYTE_ARRAY | parquet::basic::Type::FIXED_LEN_BYTE_ARRAY);
+        byte_array && arrow_string != parquet_string
+    })
+}
+
 fn sub_corrupt(c: &mut Case, fmt: Fmt) -> CaseResult {
     let strict = c.strict;
     let mut excluded = vec![];
@@ -630,7 +748,18 @@ fn sub_corrupt(c: &mut Case, fmt: Fmt) -> CaseResult {
         }
     } else {
         match catch(|| read_all(fmt, &data, &schema, &meta2)) {
-            Ok(r) => r?,
+            Ok(Ok(r)) => r,
+            Ok(Err(f)) => {
+                // Known findings C08-parquet-utf8-validation-from-converted-type / C08-parquet-dict-value-type-from-converted-type:
+                // string validation and dictionary value types follow the Parquet converted type, the array type follows the
+                // Arrow schema. Only when the corrupted file's two schemas really disagree on a string column is an unvalidated
+                // string / mistyped dictionary attributed to that root cause (one signature); otherwise it keeps its own.
+                let stringy = f.sig.contains("is not valid UTF-") || f.sig.contains("not valid UTF-") || f.sig.contains("dictionary values type mismatch");
+                if matches!(fmt, Fmt::Parquet | Fmt::ParquetDict) && stringy && catch(|| parquet_schemas_disagree(&data)).unwrap_or(false) {
+                    return Err(Fail::new("parquet:string-type-from-arrow-schema-validation-from-converted-type", f.msg));
+                }
+                return Err(f);
+            }
             Err(p) => {
                 // Known finding C08-ipc-unchecked-body-metadata: the IPC RecordBatchDecoder trusts FieldNode lengths, buffer
                 // offsets/lengths and variadic counts of a (flatbuffer-verified) message and builds Buffers/ArrayData from them;
@@ -704,5 +833,6 @@ fn main() {
         let req: &[&'static str] = if matches!(fmt, Fmt::Csv | Fmt::Json | Fmt::IpcStreamDecoder) { &["rejected-later"] } else { &["rejected-at-open"] };
         check = check.sub(Sub::new(name, q, th, move |c| sub_corrupt(c, fmt)).tape(256, 6000).require(req));
     }
+    check = check.sub(Sub::new("parquet_split_code_point", 0, 0, sub_parquet_split_code_point).enumerate(6, 6));
     check.run_isolated()
 }
